@@ -728,7 +728,8 @@ func (self *_parser) scanString(offset int, parse bool) (literal string, parsed 
 	quote := rune(self.str[offset])
 	length := 0
 	isUnicode := false
-	for self.chr != quote {
+	inClass := false // inside a [...] class of a regular expression literal, where '/' does not terminate
+	for self.chr != quote || inClass {
 		chr := self.chr
 		if chr == '\n' || chr == '\r' || chr < 0 {
 			goto newline
@@ -753,10 +754,9 @@ func (self *_parser) scanString(offset int, parse bool) (literal string, parsed 
 			continue
 		} else if chr == '[' && quote == '/' {
 			// Allow a slash (/) in a bracket character class ([...])
-			// TODO Fix this, this is hacky...
-			quote = -1
-		} else if chr == ']' && quote == -1 {
-			quote = '/'
+			inClass = true
+		} else if chr == ']' && inClass {
+			inClass = false
 		}
 		if chr >= utf8.RuneSelf {
 			isUnicode = true
